@@ -57,7 +57,21 @@ def make(pid, check_program, nontrivial, extra_feats=None):
 
         return t
 
+    def run_templates(spec):
+        col = Collector()
+        recorded = recorded_features(pid)
+        _, depth, max_runs = spec
+        for label, src in gp.template_programs():
+            status, sig, msg, stats = check_program(src, [0, 1], depth, max_runs, recorded)
+            col.count("status_" + status)
+            if status == "fail":
+                col.fail(sig, f"[template {label}] {msg}", dict(src=src, arg_idx=[0, 1], depth=depth, max_runs=max_runs), len(src))
+            col.case(src, len(src), status == "ok", sample=dict(template=label, status=status), classes=["origin:template", status])
+        return col.result()
+
     def run(spec):
+        if spec[0] == "tmpl":
+            return run_templates(spec)
         if spec[0] == "pfuzz":
             from .sweep import run_fuzz
 
@@ -76,6 +90,7 @@ def make(pid, check_program, nontrivial, extra_feats=None):
             d_, r_ = (quick[1], quick[2]) if tier == "quick" else (thorough[1], thorough[2])
             specs += [("pfuzz", fuzz_mod, seed, s, 250 if tier == "quick" else 6000, d_, r_, off) for s in range(8 if tier == "quick" else 16)]
         ex, depth, runs, pex, pshards = quick if tier == "quick" else thorough
+        specs.append(("tmpl", max(depth, 10), max(runs, 60)))
         nsh = 16 if tier == "quick" else 32
         specs += [("p", seed, s, ex, depth, runs, off, None) for s in range(nsh)]
         for f in off:
